@@ -1,9 +1,17 @@
 prop(
     "C07",
     quick=[("native", 8), ("miri", 12)],
-    thorough=[("native", 16), ("asan", 8), ("miri", 12)],
+    thorough=[("native", 16), ("asan", 8), ("miri", 12), ("fuzz", 16)],
     level="fault_enumeration",
     min_evals={"quick": 4_000_000, "thorough": 120_000_000},
+    # configuration of the `fuzz` stage (driver side: run_fuzz_stage in ../../check, target: harness/fuzz/fuzz_targets/c07_pdu.rs)
+    fuzz={
+        "seconds": 120,
+        "max_len": 4096,
+        "targets": [
+            {"name": "c07_pdu", "group": "pdu"},
+        ],
+    },
     rule=(
         "Values: every PDU type (Serial Notify, Serial Query, Reset Query, Cache Response, IPv4/IPv6 Prefix, End of Data v0 and v1/2, "
         "Cache Reset, Router Key, Error Report, ASPA) x protocol version 0..2 with boundary-dense fields (session/serial/timers at 0, 1, 2^k, 2^31, 2^32-1, "
@@ -18,7 +26,13 @@ prop(
         "plus 2^31-1, 2^31, 2^32-4, 2^32-1 once per check in the native stage. "
         "One evaluation = one stream position read to its end by one entry point and judged, or one written PDU checked. "
         "A case signature is (PDU type, version class 0/1/2/>2, damage: intact | truncated@k for k<=40, len-1, or a size bucket | type->t | version->v class | length->value class, "
-        "delivery pattern, entry point); distinct_nontrivial counts these classes."
+        "delivery pattern, entry point); distinct_nontrivial counts these classes. "
+        "The fuzz stage (thorough) adds coverage-guided libFuzzer executions of target c07_pdu: input octet 0 selects one of the 37 read entry points, octet 1 the delivery pattern "
+        "(all at once / byte-wise with Pending / one of 64 chunk scripts), the rest (up to 4 KiB) is the stream, which ends where the input ends; the selected entry point reads "
+        "PDU after PDU (at most 48) and every read is judged by the same damage oracle as the enumerated faults (no panic, completion within the poll budget, at most two reads "
+        "after end-of-stream, bounded consumption, never Ok for a stream ending inside the PDU / a type the reader does not take / an impossible length, an accepted PDU ends where "
+        "its length field says and writes back to the octets read). Headers announcing more than 1 MiB are not handed to the library there. Seeded with ~470 generated PDUs, "
+        "sequences, truncations and length-damaged headers; executions are counted as evaluations, not as signatures."
     ),
     assumptions=[
         "the wire layout of the harness' encoder is the one of RFC 6810 / RFC 8210 and of the ASPA PDU as implemented (flags in the high octet of the session field, customer, providers)",
@@ -33,12 +47,14 @@ prop(
         "(plus a boundary set of lengths) are executed against every public read entry point under three delivery patterns, with a reader that makes reads after "
         "end-of-stream countable and a manual poll loop that makes non-termination a bounded, observable event. Round trips are judged by identity against the "
         "value written and against an independent encoder. Miri repeats one value of every PDU type with all truncations (packed structs, raw slices, "
-        "get_unchecked_mut in skip_payload); ASan repeats the native workload at reduced size."
+        "get_unchecked_mut in skip_payload); ASan repeats the native workload at reduced size. The thorough tier ends with 2 minutes of coverage-guided libFuzzer "
+        "(16 forks, ASan build) over arbitrary byte streams through the same entry points and the same oracle, so payload octets and header fields are varied together, "
+        "not one header field at a time."
     ),
     level_note=(
         "Field values and multi-PDU sequences are sampled, not enumerated; PDUs above 4 KiB get a boundary-dense subset of truncation points; "
         "byte-wise delivery is complete only up to 160 octets per stream. A spin that never touches the reader would only be seen by the outer watchdog (inconclusive)."
     ),
-    technique="runtime oracle + fault enumeration (truncating AsyncRead, poll budget) + Miri/ASan",
+    technique="runtime oracle + fault enumeration (truncating AsyncRead, poll budget) + Miri/ASan + libFuzzer",
     design_ref="DESIGN.md §4 C07",
 )
